@@ -731,17 +731,26 @@ func runMain(args []string) int {
 				for j := start; j < v.Run; j += int64(W) {
 					pred = append(pred, j)
 				}
-				for _, n := range []int{8, 64, 512, 4096, len(pred)} {
-					if n > len(pred) {
-						n = len(pred)
+				// first with the minimised history; it was minimised inside a
+				// process whose state the candidates themselves kept changing,
+				// so if that fails, with the history as it was generated
+				for _, hist := range []*History{h, cd.Gen(*seed, v.Run, thorough)} {
+					rf.History, rf.Readable = hist, hist.Describe()
+					for _, n := range []int{8, 64, 512, 4096, len(pred)} {
+						if n > len(pred) {
+							n = len(pred)
+						}
+						rf.PrefixRuns, rf.Seed, rf.Thorough = pred[len(pred)-n:], *seed, thorough
+						writeJSON(path, rf)
+						if ok3, _ := childReplay(path, false); ok3 {
+							hits = -n
+							break
+						}
+						if n == len(pred) {
+							break
+						}
 					}
-					rf.PrefixRuns, rf.Seed, rf.Thorough = pred[len(pred)-n:], *seed, thorough
-					writeJSON(path, rf)
-					if ok3, _ := childReplay(path, false); ok3 {
-						hits = -n
-						break
-					}
-					if n == len(pred) {
+					if hits < 0 {
 						break
 					}
 				}
